@@ -7,8 +7,9 @@
      E kind a b | text cps | cs cps   -> text_edit;      "P" or "l1 c1 l2 c2 | cps"
      C l1 c1 l2 c2 | text cps | nt    -> client_apply (spec); "N" or "O cps"
      A kind a b | text cps | cs cps   -> Suggestion::apply;   "P" or "O cps"
-   with the argument --fixed, R runs range_to_span_fixed (the code with fixes/F9.diff applied) *)
-let fixed = Array.exists (fun a -> a = "--fixed") Sys.argv
+   with the argument --old, R runs range_to_span_old (HISTORY: the code before 229693d, the fix of F9;
+   used by hand to explain the reverse-fix mutation, never by ./check) *)
+let old = Array.exists (fun a -> a = "--old") Sys.argv
 let i = int_of_nat
 let n = nat_of_int
 let () =
@@ -28,7 +29,7 @@ let () =
       | 'R', [hd; t] ->
           (match ints_of_line hd with
            | [l1; c1; l2; c2] ->
-               (match (if fixed then run_range_to_span_fixed else run_range_to_span) (text_of_line t) (n l1) (n c1) (n l2) (n c2) with
+               (match (if old then run_range_to_span_old else run_range_to_span) (text_of_line t) (n l1) (n c1) (n l2) (n c2) with
                 | None -> "P"
                 | Some (a, b) -> Printf.sprintf "%d %d" (i a) (i b))
            | _ -> "?")
